@@ -619,7 +619,11 @@ fn gen_leaf(rng: &mut Rng, ntables: usize) -> Op {
         2..=4 => Op::Read { ty, n: gen_n(rng) },
         5 => Op::PeekS { ty, n: gen_n(rng) },
         6 | 7 => Op::ReadS { ty, n: gen_n(rng) },
-        8 | 9 => Op::Skip { n: gen_n(rng) },
+        8 | 9 => {
+            // skips are not limited by a type's width: occasionally hundreds or thousands of bits
+            let n = if rng.chance(1, 6) { *rng.pick(&[65u32, 100, 511, 512, 513, 1000, 2047, 4000]) + rng.below(9) as u32 } else { gen_n(rng) };
+            Op::Skip { n }
+        }
         10 => Op::ReadU8,
         11 | 12 => Op::StartCode { in_error: rng.chance(1, 4) },
         _ => Op::Vlc { table: rng.usize(ntables.max(1)) },
@@ -658,7 +662,7 @@ fn gen_ops(rng: &mut Rng, budget: &mut usize, depth: usize, ntables: usize, comm
             }
         } else if r < 97 {
             if !remaining_src.is_empty() {
-                let k = 1 + rng.usize(remaining_src.len().min(6));
+                let k = 1 + rng.usize(remaining_src.len().min(if remaining_src.len() > 60 { 90 } else { 6 }));
                 let bytes: Vec<u8> = remaining_src.drain(..k).collect();
                 ops.push(Op::Deliver { bytes });
             }
@@ -701,9 +705,10 @@ impl Property for C14 {
         }
     }
     fn generate(rng: &mut Rng, _tier: Tier) -> ReaderPlan {
-        let nsrc = match rng.below(6) {
-            0 => 0,
-            1 => rng.usize(4),
+        let nsrc = match rng.below(12) {
+            0 | 1 => 0,
+            2 | 3 => rng.usize(4),
+            4 => 100 + rng.usize(700), // room for skips of hundreds of bits that run dry part-way
             _ => rng.usize(49),
         };
         let mut src = gen_source_bytes(rng, nsrc);
